@@ -549,7 +549,7 @@ def Sim.onOp (s : Sim) (line : Nat) (ws : List String) : Sim :=
       | some l =>
         match l.stepL .close with
         | some l' => ({ (s.setLink name (other side) l') with calls := s.calls.set k (name ++ ">" ++ other side, "close") }).addPredicted [(k, "ok")]
-        | none => s.addPredicted [(k, "ok")]
+        | none => ({ s with calls := s.calls.set k (name ++ ">" ++ other side, "close") }).addPredicted [(k, "ok")]
       | none => s
     else s
   | ["cancel", k] =>
@@ -795,6 +795,11 @@ def stepLine (a : RunAcc) (n : Nat) (line : String) : IO RunAcc := do
     let s := s.onSettled n rest
     let s := s.c03AtSettle n pend a.creditLines
     return { a with sim := s, creditLines := [] }
+  | "run" :: x :: res =>
+    -- no fault is injected in these modes and both endpoints are real: a dispatcher that ends with an
+    -- error turns an ordinary close/drop into 'connection failed' for every port
+    if res == ["ok"] then return { a with sim := s } else
+    return { a with sim := s.fail "c11" n s!"dispatcher {x} ended with '{" ".intercalate res}' on a healthy transport with a conforming peer: every port of the connection now reports 'connection failed' instead of the condition that occurred" }
   | "livelock" :: _ => return { a with sim := s.fail "c03" n "livelock: the transport frame budget was exhausted (an operation emits frames forever)" }
   | "panic" :: rest => return { a with sim := (s.fail "c01" n ("panic " ++ " ".intercalate rest)) }
   | _ => return { a with sim := s }
